@@ -41,7 +41,12 @@ pub fn truth(lines: &[GLine], out: &[u8]) -> Truth {
     for l in lines {
         off += l.text.len() + 1;
         line_end.push(off);
-        let v = l.token.as_ref().map(|t| tv.get(&crate::text::token_num(t)).copied().unwrap_or(usize::MAX));
+        let mut v = l.token.as_ref().map(|t| tv.get(&crate::text::token_num(t)).copied().unwrap_or(usize::MAX));
+        // a hunk header's code fragment is shown or hidden by the hunk-header style: it is only
+        // required *on time* if it is shown at all
+        if l.kind == LineKind::HunkHeader && v == Some(usize::MAX) {
+            v = None;
+        }
         if let Some(x) = v {
             m = m.max(x);
         }
